@@ -230,9 +230,18 @@ pub fn install_panic_hook() {
         if !is_marker && (in_harness || std::env::var("VERIF_SHOW_PANICS").is_ok()) {
             eprintln!("[panic] {info}");
         }
+        // the most recent panic raised by the code under test (any thread): if the explorer itself then dies
+        // of it (a site no engine catches), main reports it as a verdict on that code, not as a machinery error
+        if !is_marker && !in_harness && info.location().map_or(false, |l| l.file().contains("/repo/") || l.file().starts_with("teos") || l.file().starts_with("watchtower-plugin")) {
+            if let Ok(mut g) = LAST_REPO_PANIC.lock() {
+                *g = Some(format!("{loc}: {}", info.to_string().lines().last().unwrap_or("").chars().take(120).collect::<String>()));
+            }
+        }
         let _ = LAST_PANIC_LOCATION.try_with(|l| *l.borrow_mut() = Some(loc));
     }));
 }
+
+pub static LAST_REPO_PANIC: StdMutex<Option<String>> = StdMutex::new(None);
 
 pub fn take_panic_location() -> String {
     LAST_PANIC_LOCATION
